@@ -221,9 +221,58 @@ def r17_2(prog, rep):
         rep.fail(rid, "snarf_rrule/BYEASTER-guard", sf.loc(), "BYEASTER is no longer stored by the parser")
 
 
+def r17_3(prog, rep):
+    """Carry pairs.  Where a function carries a month variable into a year variable (`M += 12, Y--` / `M -= 12, Y++`), the two form one
+    date; every calendar helper that takes (year, month) and is handed M must be handed the paired Y, not the year the walk started from."""
+    rid = "R17.3"
+    n = 0
+    for f in prog.fns_in("evrrul.c"):
+        if not f.cfg:
+            continue
+        cfg = f.cfg
+        pairs = {}
+        for b, blk in cfg.blocks.items():
+            months, years = set(), set()
+            for e in blk.elems:
+                x = e["x"]
+                if not isinstance(x, dict):
+                    continue
+                for l, kind, nn in writes(x):
+                    if kind == "compound" and nn.get("op") in ("+=", "-=") and int_value(cfg.resolve(nn["r"])) == 12:
+                        months.add(lv(l))
+                    elif kind == "incdec":
+                        years.add(lv(l))
+            if len(months) == 1 and len(years - months) == 1:
+                pairs[months.pop()] = (years - months).pop()
+        if not pairs:
+            continue
+        for b, i, c, line in f.all_calls():
+            callee = c.get("fn")
+            if not callee or not prog.functions.get(callee):
+                continue
+            pn = [p_["n"] for p_ in prog.functions[callee][0].params]
+            if "y" not in pn or "m" not in pn or len(c["a"]) < len(pn):
+                continue
+            ya, ma = lv(strip_casts(cfg.resolve(c["a"][pn.index("y")]))), lv(strip_casts(cfg.resolve(c["a"][pn.index("m")])))
+            if ma not in pairs:
+                continue
+            n += 1
+            key = "%s/%s(%s)@%d" % (f.name, callee, ma, sum(1 for bb, ii, cc, ll in f.all_calls() if cc.get("fn") == callee and (ll, bb, ii) <= (line, b, i)))
+            if ya == pairs[ma]:
+                rep.ok(rid, key, f.loc(line), "%s(%s, %s): year and month of one carry pair" % (callee, ya, ma))
+            else:
+                rep.fail(rid, key, f.loc(line),
+                         "%s() is asked about month %s of year `%s`, but %s carries into %s: once the walk has crossed a year boundary the month "
+                         "length/weekday of the wrong year is used (February of a leap vs. common year)" % (callee, ma, ya, ma, pairs[ma]))
+    if n < 4:
+        rep.broken_("rule=R17.3 expected >=4 (year, month) helper calls on carry pairs, found %d" % n)
+
+
 def run(prog, rep, tier, snap):
     rep.rule("R17.1", "SHIFT bit layout: writer and all readers agree", 10)
     r17_1(prog, rep)
     rep.rule("R17.2", "pipeline order and BYEASTER guard", 8)
     r17_2(prog, rep)
+    rep.rule("R17.3", "calendar helpers are asked about the carried (year, month) pair", 4)
+    r17_3(prog, rep)
 READY = True
